@@ -149,6 +149,14 @@ def shapes(tier):
     # structs: all kinds x all field combinations
     for kind, fs in variant_options(alpha, maxf):
         out.append(([(kind, fs)], False, "no_drop", None, False))
+    # three and four fields over the alphabet that matters for binding bookkeeping (several require_static fields, then a pointer)
+    for combo in itertools.product(["RS", "G", "U"], repeat=3):
+        out.append(([("named", combo)], False, "no_drop", None, False))
+        out.append(([("tuple", combo)], False, "no_drop", None, False))
+        out.append(([("tuple", combo), ("tuple", ("G",))], True, "no_drop", None, False))
+    for combo in itertools.product(["RS", "W"], repeat=4):
+        out.append(([("tuple", combo)], False, "no_drop", None, False))
+        out.append(([("unit", ()), ("named", combo)], True, "no_drop", None, False))
     # enums with one variant
     small = ["G", "W", "U", "RS", "T"]
     vopts = variant_options(small, 2)
@@ -273,6 +281,8 @@ def neg_probes():
     # attribute on an enum variant
     N["variant_attribute/first"] = "#[derive(Collect)]\n#[collect(no_drop)]\nenum X { #[collect(require_static)] A { a: u8 }, B }"
     N["variant_attribute/last"] = "#[derive(Collect)]\n#[collect(no_drop)]\nenum X { A, B, #[collect(require_static)] C(u8) }"
+    N["variant_attribute/all_static_fields"] = "#[derive(Collect)]\n#[collect(no_drop)]\nenum X { A(u8), #[collect(require_static)] B(#[collect(require_static)] NotCollect) }"
+    N["variant_attribute/empty_tuple"] = "#[derive(Collect)]\n#[collect(no_drop)]\nenum X { A(u8), #[collect(require_static)] B() }"
     N["variant_attribute/unit"] = "#[derive(Collect)]\n#[collect(unsafe_drop)]\nenum X { A(u8), #[collect(require_static)] B }"
     # field-level attribute other than require_static
     for opt in ("no_drop", "unsafe_drop", "invalid_arg", "bound = \\\"\\\"", "require_static, no_drop", "require_static = true"):
